@@ -14,6 +14,7 @@ import (
 	digestpkg "github.com/opencontainers/go-digest"
 	"github.com/tonistiigi/fsutil"
 	"github.com/tonistiigi/fsutil/types"
+	"verif/internal/core"
 	"verif/internal/tree"
 	"verif/internal/wire"
 )
@@ -39,6 +40,11 @@ type syncRes struct {
 	TimedOut         bool
 	SendDone         bool
 	RecvDone         bool
+	// Deadlock: the process became quiescent (every goroutine parked, stacks
+	// stable) while a call was still outstanding; Dump holds the goroutines.
+	Deadlock                                       bool
+	Dump                                           string
+	SendDoneBeforeTeardown, RecvDoneBeforeTeardown bool
 }
 
 // runSync models the life cycle of a gRPC bidi stream: when the sender (the
@@ -75,29 +81,54 @@ func runSync(o syncOpt) *syncRes {
 		p.S.Cancel()
 		rd <- err
 	}()
-	timer := time.NewTimer(o.Timeout)
-	defer timer.Stop()
+	deadline := time.NewTimer(o.Timeout)
+	defer deadline.Stop()
+	tick := time.NewTicker(100 * time.Millisecond)
+	defer tick.Stop()
+	lastSeq, idle := int64(-1), 0
+	collect := func(grace time.Duration) {
+		g := time.NewTimer(grace)
+		defer g.Stop()
+		for !(res.SendDone && res.RecvDone) {
+			select {
+			case err := <-sd:
+				res.SendErr, res.SendDone = err, true
+			case err := <-rd:
+				res.RecvErr, res.RecvDone = err, true
+			case <-g.C:
+				return
+			}
+		}
+	}
 	for !(res.SendDone && res.RecvDone) {
 		select {
 		case err := <-sd:
 			res.SendErr, res.SendDone = err, true
 		case err := <-rd:
 			res.RecvErr, res.RecvDone = err, true
-		case <-timer.C:
+		case <-tick.C:
+			// structural deadlock detection: no stream progress and every
+			// goroutine parked with identical stacks in consecutive samples
+			if q := p.Seq(); q != lastSeq {
+				lastSeq, idle = q, 0
+				continue
+			}
+			idle++
+			if idle < 5 {
+				continue
+			}
+			if ok, dump := core.Quiescent(3, 40*time.Millisecond, nil); ok {
+				res.Deadlock = true
+				res.Dump = dump
+				res.SendDoneBeforeTeardown, res.RecvDoneBeforeTeardown = res.SendDone, res.RecvDone
+				p.Teardown()
+				collect(10 * time.Second)
+				return res
+			}
+		case <-deadline.C:
 			res.TimedOut = true
 			p.Teardown()
-			grace := time.NewTimer(10 * time.Second)
-			for !(res.SendDone && res.RecvDone) {
-				select {
-				case err := <-sd:
-					res.SendErr, res.SendDone = err, true
-				case err := <-rd:
-					res.RecvErr, res.RecvDone = err, true
-				case <-grace.C:
-					return res
-				}
-			}
-			grace.Stop()
+			collect(10 * time.Second)
 			return res
 		}
 	}
@@ -251,4 +282,23 @@ func entrySize(e *tree.Entry) int64 {
 		return int64(len(e.Target))
 	}
 	return 0
+}
+
+// checkHang turns a structurally detected deadlock into a violation and a
+// fired watchdog into an inconclusive case. It returns true if the case ended.
+func checkHang(r *core.Result, res *syncRes, desc string) bool {
+	if res.Deadlock {
+		frames := core.FsutilFrames(res.Dump)
+		if len(frames) > 12 {
+			frames = frames[:12]
+		}
+		r.ViolateD("deadlock", map[string]any{"config": desc, "fsutil_goroutines": frames, "send_returned": res.SendDoneBeforeTeardown, "recv_returned": res.RecvDoneBeforeTeardown},
+			"%s: the session deadlocked: no stream progress and every goroutine parked (send returned=%v, receive returned=%v before the harness tore the stream down)", desc, res.SendDoneBeforeTeardown, res.RecvDoneBeforeTeardown)
+		return true
+	}
+	if res.TimedOut {
+		r.Inconclusive = "wall-clock watchdog: session did not finish (" + desc + ")"
+		return true
+	}
+	return false
 }
